@@ -271,6 +271,7 @@ class Options:
         self.process = False  # run_physical.process inlined as fn (C15/C16)
         self.base_kinds = True  # fn may raise BaseException-only
         self.fuse = True  # lock-set based atomic fusing (False: every shared access is its own step)
+        self.all_ok = False  # restrict the instance to runs in which no call fails
         self.__dict__.update(kw)
 
 
@@ -305,7 +306,12 @@ class Encoder:
             for (i, j), v in self.adjv.items():
                 self.constraints.append(z3.Implies(v, z3.ULT(self.rank[i], self.rank[j])))
         # outcome per node: 0 ok, 1 raises Exception, 2 raises BaseException-only
-        self.outcome = [z3.BitVec(f"outcome_{i}", 2) for i in range(N)]
+        if self.opts.all_ok:
+            # stated restriction of an instance: no call fails (used for the 5-node ordering instance of C01, whose property
+            # does not involve failures); as literal constants so that the failure paths fold away
+            self.outcome = [z3.BitVecVal(0, 2) for i in range(N)]
+        else:
+            self.outcome = [z3.BitVec(f"outcome_{i}", 2) for i in range(N)]
         for o in self.outcome:
             self.constraints.append(z3.ULE(o, 2 if self.opts.base_kinds else 1))
         self.maxerr_none = z3.Bool("maxerr_none")
